@@ -9,7 +9,7 @@ from .simlib import SimCheck
 FIXED = dict(KeepInitData=True, SegDataAt=10)
 
 DESTS = {"u8": ("exact", 1), "u16": ("exact", 2), "u32": ("exact", 4), "u64": ("exact", 8), "arr4": ("exact", 4),
-         "arr16": ("exact", 16), "arr64": ("exact", 64), "str32": ("upto", 32), "str128": ("upto", 128), "raw_vec": ("upto", 512)}
+         "arr16": ("exact", 16), "arr64": ("exact", 64), "a16x4": ("exact", 8), "a32x3": ("exact", 12), "a64x2": ("exact", 16), "str32": ("upto", 32), "str128": ("upto", 128), "raw_vec": ("upto", 512)}
 ABORTS = [0x05030000, 0x05040000, 0x05040001, 0x05040005, 0x06010000, 0x06010001, 0x06010002, 0x06020000, 0x06040041,
           0x06040042, 0x06040043, 0x06040047, 0x06060000, 0x06070010, 0x06070012, 0x06070013, 0x06090011, 0x06090030,
           0x06090031, 0x06090032, 0x06090036, 0x08000000, 0x08000020, 0x08000021, 0x08000022, 0x08000023]
